@@ -243,7 +243,10 @@ class GaussianKDE(DensityEstimator):
         x = linspace(self.lwr_limit, self.upr_limit, N)
         p = self(x)
 
-        mu = simpson(p * x, x=x)
+        # normalise by the integral over the same grid, and integrate about the
+        # mode, so that quadrature error isn't multiplied by the location of the data
+        p /= simpson(p, x=x)
+        mu = self.mode + simpson(p * (x - self.mode), x=x)
         dx = x - mu
         I = p * dx**2
         var = simpson(I, x=x)
